@@ -32,6 +32,16 @@ CLAIMED.update({
   note="Covers store state only: per-connection state read by other connections (CLIENT LIST/INFO), info counters, the shared command grammar, package counters and channel-ordered hand-offs are not yet under a declared guard and are not decided; a proved guard discipline is a sufficient condition for the declared fields only, it is not a run of the race detector.",
   design="DESIGN.md §6 C16"),
 })
+CLAIMED.update({
+ "C19": dict(
+  text="Deductive proof of the dirty-marking half of persistence for all 111 store methods: on every path of every method, if the method changed what a key holds (any write to a key object's type/payload/deadline, a list node or list header, or any store/remove on a hash/set table or the keyspace table — tracked by a ghost bit set at the writes themselves), then the keyspace's dirty flag is set when the method returns, so the saver will write the change. Helpers are proved modularly (monotone dirty flag, 'mutated => dirty' per helper, loop invariants). Eight mutators that changed data without marking dirty were found and repaired.",
+  note="Partial: crash-atomicity of the snapshot write (os.Create on the live file), save/load symmetry and flush/reload behaviour are not yet under contract; the gob codec and the OS are outside this family. The dictionary primitives are trusted contracts. Violations of these heap-level obligations are reported with the solver's reason but without a replayed input (no-failing-input-found).",
+  design="DESIGN.md §6 C19"),
+ "C10": dict(
+  text="Deductive proof of the version discipline WATCH relies on, for all 111 store methods: whenever a method changes what a key holds, it also gives a key a new version (dataObjectNumber bump through newStoreKeyUnlocked/copy/move/setModified), removes a key from the keyspace, or its version touch found the key absent; helpers are proved modularly with monotone ghost bits. The in-place mutators (lists, hashes, sets, expiry) did not bump the version at all and hasChangedUnlocked ignored expiry; both were repaired.",
+  note="Partial and structural: the ghost bits are per command, not per key, so a multi-key command that bumps one key and mutates another in place is not distinguished; getIds/hasChangedUnlocked/isAbortedExecUnlocked consistency and the EXEC-aborts-iff lemma are not yet under contract. Dictionary primitives and getStoreKey are trusted contracts.",
+  design="DESIGN.md §6 C10"),
+})
 NOT_BUILT = {}
 ALL = ["C%02d" % i for i in range(1, 21)]
 
